@@ -405,43 +405,17 @@ theorem other_keyAsc_of_pos {V W : Type} (p : TermsP) (ho : p.order = .keyAsc) (
     List.pairwise_map.2 (entries_pairwise_key m)
   rw [hf, ho, sortBuckets_keyAsc_of_sorted _ hpw, ← List.map_drop, sumCounts_map_keep]
 
-theorem terms_keyAsc_other_exact (p : TermsP) (sub : Req) (ho : p.order = .keyAsc) (hsz : p.size ≤ p.segSize)
-    (hmdc : p.minDocCount ≤ 1) (hsub : ∀ x : Inter M sub, harvest sub x = x) (parts : List (List Doc)) :
-    (finalize (M := M) (.terms p sub) (mergedTerms (M := M) p sub parts)).2.1
-      = (finalize (M := M) (.terms p sub) (collect (M := M) (.terms p sub) parts.flatten)).2.1 := by
+/-- conservation over the whole partition: what the merged truncated tree holds plus its
+`sum_other_doc_count` is what the untruncated collection holds -/
+theorem terms_conservation_total (p : TermsP) (sub : Req) (parts : List (List Doc))
+    (hpos1 : Pos (mergedTerms (M := M) p sub parts).map) (hsupp1 : Supp (mergedTerms (M := M) p sub parts).map) :
+    sumCounts (mergedTerms (M := M) p sub parts).map.entries + (mergedTerms (M := M) p sub parts).other
+      = sumCounts (collect (M := M) (.terms p sub) parts.flatten).map.entries := by
   have hnd : ∀ d ∈ parts.flatten, (termKeys p d).Nodup := fun d _ => termKeys_nodup p d
-  have hmapeq : (mergedTerms (M := M) p sub parts).map
-      = ((parts.map (collectB (M := M) sub (termKeys p))).map (cutAsc p.segSize)).foldl
-          (KMap.merge (entryMerge (merge (M := M) sub))) KMap.empty := by
-    unfold mergedTerms
-    rw [foldl_terms_map, List.map_map, List.map_map]
-    congr 1
-    apply List.map_congr_left
-    intro part _
-    exact collectSeg_terms_map p sub ho hsub part
-  have hpos1 : Pos (mergedTerms (M := M) p sub parts).map := by
-    rw [hmapeq]
-    apply pos_foldl
-    · intro m hm
-      obtain ⟨t, ht, rfl⟩ := List.mem_map.1 hm
-      obtain ⟨part, _, rfl⟩ := List.mem_map.1 ht
-      exact pos_cutAsc _ (pos_collectB sub (termKeys p) part)
-    · exact pos_empty
-  have hsupp1 : Supp (mergedTerms (M := M) p sub parts).map := by
-    rw [hmapeq]
-    apply supp_foldl
-    · intro m hm
-      obtain ⟨t, ht, rfl⟩ := List.mem_map.1 hm
-      obtain ⟨part, _, rfl⟩ := List.mem_map.1 ht
-      exact cutAsc_supp _ (collectB_Supp_pv sub (termKeys p) part)
-    · exact supp_empty
   have hX' : collect (M := M) (.terms p sub) parts.flatten = ⟨collectB sub (termKeys p) parts.flatten, 0, 0⟩ :=
     collect_terms p sub parts.flatten
-  have hpos2 : Pos (collect (M := M) (.terms p sub) parts.flatten).map := by
-    rw [hX']; exact pos_collectB sub (termKeys p) parts.flatten
   have hsupp2 : Supp (collect (M := M) (.terms p sub) parts.flatten).map := by
     rw [hX']; exact collectB_Supp_pv sub (termKeys p) parts.flatten
-  -- the universe of keys
   let U : List Int := spanOf (hullOfList (parts.flatten.flatMap (termKeys p)))
   have hU : U.Nodup := nodup_spanOf _
   have hUmem : ∀ d ∈ parts.flatten, ∀ k ∈ termKeys p d, k ∈ U := fun d hd k hk =>
@@ -475,6 +449,67 @@ theorem terms_keyAsc_other_exact (p : TermsP) (sub : Req) (ho : p.order = .keyAs
     intro k _
     rw [hX']
     exact collectB_cnt sub (termKeys p) parts.flatten hnd k
+  omega
+
+/-! any order, no cut below: the map of a segment fruit is the map `termsCut` leaves -/
+
+theorem collectSeg_terms_map_gen (p : TermsP) (sub : Req) (hsub : ∀ x : Inter M sub, harvest sub x = x)
+    (part : List Doc) :
+    (collectSeg (M := M) (.terms p sub) part).map
+      = (termsCut p (⟨collectB (M := M) sub (termKeys p) part, 0, 0⟩ : TermsI (Inter M sub))).map := by
+  have hid : harvest (M := M) sub = id := funext hsub
+  show ((termsCut p (collect (M := M) (.terms p sub) part)).map.mapVals (harvest sub)) = _
+  rw [hid, mapVals_id, collect_terms]
+
+theorem pos_termsCut {V : Type} (p : TermsP) (t : TermsI V) (h : Pos t.map) : Pos (termsCut p t).map := by
+  by_cases hl : t.map.entries.length ≤ p.segSize
+  · rw [termsCut_small p t hl]; exact h
+  · rw [termsCut_big p t hl]; exact pos_restrict h _
+
+theorem mergedTerms_map_eq (p : TermsP) (sub : Req) (hsub : ∀ x : Inter M sub, harvest sub x = x)
+    (parts : List (List Doc)) :
+    (mergedTerms (M := M) p sub parts).map
+      = ((parts.map (collectB (M := M) sub (termKeys p))).map
+            (fun m => (termsCut p (⟨m, 0, 0⟩ : TermsI (Inter M sub))).map)).foldl
+          (KMap.merge (entryMerge (merge (M := M) sub))) KMap.empty := by
+  unfold mergedTerms
+  rw [foldl_terms_map, List.map_map, List.map_map]
+  congr 1
+  apply List.map_congr_left
+  intro part _
+  exact collectSeg_terms_map_gen p sub hsub part
+
+theorem mergedTerms_pos (p : TermsP) (sub : Req) (hsub : ∀ x : Inter M sub, harvest sub x = x)
+    (parts : List (List Doc)) : Pos (mergedTerms (M := M) p sub parts).map := by
+  rw [mergedTerms_map_eq p sub hsub]
+  apply pos_foldl
+  · intro m hm
+    obtain ⟨t, ht, rfl⟩ := List.mem_map.1 hm
+    obtain ⟨part, _, rfl⟩ := List.mem_map.1 ht
+    exact pos_termsCut p _ (pos_collectB sub (termKeys p) part)
+  · exact pos_empty
+
+theorem mergedTerms_supp (p : TermsP) (sub : Req) (hsub : ∀ x : Inter M sub, harvest sub x = x)
+    (parts : List (List Doc)) : Supp (mergedTerms (M := M) p sub parts).map := by
+  rw [mergedTerms_map_eq p sub hsub]
+  apply supp_foldl
+  · intro m hm
+    obtain ⟨t, ht, rfl⟩ := List.mem_map.1 hm
+    obtain ⟨part, _, rfl⟩ := List.mem_map.1 ht
+    exact termsCut_supp p _ (collectB_Supp_pv sub (termKeys p) part)
+  · exact supp_empty
+
+theorem terms_keyAsc_other_exact (p : TermsP) (sub : Req) (ho : p.order = .keyAsc) (hsz : p.size ≤ p.segSize)
+    (hmdc : p.minDocCount ≤ 1) (hsub : ∀ x : Inter M sub, harvest sub x = x) (parts : List (List Doc)) :
+    (finalize (M := M) (.terms p sub) (mergedTerms (M := M) p sub parts)).2.1
+      = (finalize (M := M) (.terms p sub) (collect (M := M) (.terms p sub) parts.flatten)).2.1 := by
+  have hpos1 := mergedTerms_pos (M := M) p sub hsub parts
+  have hsupp1 := mergedTerms_supp (M := M) p sub hsub parts
+  have hX' : collect (M := M) (.terms p sub) parts.flatten = ⟨collectB sub (termKeys p) parts.flatten, 0, 0⟩ :=
+    collect_terms p sub parts.flatten
+  have hpos2 : Pos (collect (M := M) (.terms p sub) parts.flatten).map := by
+    rw [hX']; exact pos_collectB sub (termKeys p) parts.flatten
+  have htot := terms_conservation_total (M := M) p sub parts hpos1 hsupp1
   have hk1 := terms_keyAsc_cut_exact (M := M) p sub ho hsz hsub parts
   have s1 := sumCounts_append ((mergedTerms (M := M) p sub parts).map.entries.take p.size)
     ((mergedTerms (M := M) p sub parts).map.entries.drop p.size)
